@@ -122,6 +122,9 @@ template<class T> void vb_ptr_ops(rlbox_sandbox<SBX>& s)
   auto acc = s.UNSAFE_accept_pointer(raw1); (void)acc;
   auto vp = sandbox_reinterpret_cast<void*>(p); auto cp2 = sandbox_const_cast<const T*>(p); auto bk = sandbox_reinterpret_cast<T*>(vp);
   auto fromvolcast = sandbox_reinterpret_cast<char*>(*pp); (void)fromvolcast;
+  // the other casts applied to a pointer that lives in sandbox memory (tainted_volatile source)
+  auto fromvolconst = sandbox_const_cast<const T*>(*pp); (void)fromvolconst;
+  auto fromvolstatic = sandbox_static_cast<const T*>(*pp); (void)fromvolstatic;
   (void)vp; (void)cp2; (void)bk;
 }
 
@@ -255,6 +258,10 @@ void vb_invoke(rlbox_sandbox<SBX>& s)
   ps->fp = nullptr; tainted<int (*)(unsigned, const char*), SBX> fpv = ps->fp; (void)fpv;
   auto s1 = str.copy_and_verify_string([](std::unique_ptr<char[]> v) { return v; });
   auto s2s = str.copy_and_verify_string([](std::string v) { return v; }); (void)s1; (void)s2s;
+  // the same on a string pointer that itself lives in sandbox memory (tainted_volatile<char*> receiver)
+  { tainted<char**, SBX> pstr = s.malloc_in_sandbox<char*>(); *pstr = str;
+    auto v1 = (*pstr).copy_and_verify_string([](std::unique_ptr<char[]> v) { return v; });
+    auto v2 = (*pstr).copy_and_verify_string([](std::string v) { return v; }); (void)v1; (void)v2; }
   tainted<const char*, SBX> cstr = sandbox_const_cast<const char*>(str);
   auto s3 = cstr.copy_and_verify_string([](std::unique_ptr<const char[]> v) { return v; }); (void)s3;
   int x; auto ap = s.get_app_pointer(&x); auto tp = ap.to_tainted(); auto lk = s.lookup_app_ptr(tp); (void)lk;
